@@ -317,6 +317,8 @@ ExploreStats explore(Kind &K, const std::string &key, int depth) {
         }
         frontier.swap(next);
     }
+    // no unexpanded state left: every history of ANY length leads to a state that was expanded (fixpoint)
+    if (frontier.empty()) vf::count("bfs.state_space_closed_within_depth_bound");
     vf::S().states += st.states;
     vf::S().transitions += st.transitions;
     vf::S().traces_validated += st.validated;
